@@ -289,3 +289,26 @@ M("c12_break_by_compares_first_field_only", "C12", "ak/ppobj.py",
 M("c12_footer_width_minus_2", "C12", "ak/ppobj.py",
   "                [cp.text(self.footer)], table_width, ALIGN_LEFT, cp))",
   "                [cp.text(self.footer)], table_width - 2, ALIGN_LEFT, cp))")
+
+# ---------------------------------------------------------------- C13
+M("c13_revert_width_suffix_parser", "C13", "ak/ppobj.py",
+  "        if width_fmt.endswith(')') and '(' in width_fmt:", "        if False:")
+M("c13_revert_remove_columns_width_reset", "C13", "ak/ppobj.py",
+  "        for c in self.columns:\n            c.width = None\n", "")
+M("c13_serializer_drops_break_by", "C13", "ak/ppobj.py",
+  "        if self.break_by:\n            fmt_str += \"!\"\n\n        if self.min_width == self.max_width:",
+  "        if self.break_by and self.fmt_modifier is None:\n            fmt_str += \"!\"\n\n        if self.min_width == self.max_width:")
+M("c13_serializer_drops_modifier_when_ranged", "C13", "ak/ppobj.py",
+  "        if self.fmt_modifier is not None:\n            fmt_str += f\"/{self.fmt_modifier}\"\n\n        if self.break_by:",
+  "        if self.fmt_modifier is not None and self.width is None:\n            fmt_str += f\"/{self.fmt_modifier}\"\n\n        if self.break_by:")
+M("c13_setter_does_not_copy_limits", "C13", "ak/ppobj.py",
+  "            else:\n                self.limit_flines = other.limit_flines\n                self.limit_llines = other.limit_llines",
+  "            else:\n                self.set_limits(self._DFLT_LIMIT_LINES)")
+M("c13_clone_keeps_width", "C13", "ak/ppobj.py",
+  "        return ReprColumn(\n            self.field,\n            self.fmt_modifier,\n            self.break_by,\n            self.min_width,\n            self.max_width,\n        )",
+  "        res = ReprColumn(\n            self.field,\n            self.fmt_modifier,\n            self.break_by,\n            self.min_width,\n            self.max_width,\n        )\n        res.width = self.width\n        return res")
+M("c13_limits_omitted_when_unknown", "C13", "ak/ppobj.py",
+  "        if self.any_lines_skipped is None or self.any_lines_skipped is True:",
+  "        if self.any_lines_skipped is True:")
+M("c13_fixed_width_serialised_as_range_start", "C13", "ak/ppobj.py",
+  "            fmt_str += f\":{self.min_width}-{self.max_width}\"\n", "            fmt_str += f\":{self.min_width}-{max(self.max_width - 1, self.min_width) if self.max_width < 20 else self.max_width}\"\n")
